@@ -10,7 +10,11 @@
 (*   [k |-> "data", mn \in {DB,DW,DD}, items]  item = [t |-> "e", e] | [t |-> "s", b]*)
 (*   [k |-> "resb", e]              [k |-> "alignb", v]                      *)
 (*   [k |-> "ins", mn, ops]         [k |-> "br", mn, tgt]   [k |-> "far", ...]*)
+(*   [k |-> "far", mn, seg, off, offnm]   far pointer; offnm # "" : the offset is that label *)
 (*   [k |-> "raw", mn, emits]       opaque statement (matrix universes)      *)
+(*   [k |-> "datab", mn, e, defs] [k |-> "equb", nm, e]  data / EQU whose     *)
+(*        values pass 32 bits: judged with the exact arithmetic of Big.tla   *)
+(*        (Trace_Asm); e may contain [o |-> "nb", neg, mag] literals          *)
 (* Expressions: [o |-> "n", v] [o |-> "id", nm] [o |-> "$"]                   *)
 (*   [o |-> "+"|"-"|"*"|"/"|"%", a, b]  [o |-> "neg", a]  [o |-> "par", a]   *)
 EXTENDS X86M
